@@ -234,6 +234,9 @@ func checkC10(c *Case, st *Stats) string {
 			} else {
 				st.Class("unspecified(both-absent ==)")
 			}
+			if msg := c10EditAndEvaluateAgain(cc, ast, text, lib, st); msg != "" {
+				return msg
+			}
 			// selection identity independent of the number representation: compare as float64-decoded text
 			o := &outcome{ids: canonNumbers(lib.got), n: len(lib.got)}
 			if first == nil {
@@ -282,6 +285,52 @@ func checkC10(c *Case, st *Stats) string {
 		st.NonTrivialCase(c.Path+"\x00"+docText, func() interface{} {
 			return map[string]interface{}{"path": c.Path, "doc": docText, "matched_members": matched, "types_at_operand": len(types)}
 		})
+	}
+	return ""
+}
+
+// c10EditAndEvaluateAgain: the caller swaps the root members "x" and "y" of the document it holds
+// (and reverses the member list) in place, then evaluates the same parsed function again: the
+// comparison must see the operands as they are now.
+func c10EditAndEvaluateAgain(cc *Case, ast *gen.Path, text string, lib retrieveResult, st *Stats) string {
+	if lib.again == nil || len(text)%3 != 0 {
+		return ""
+	}
+	edited := cc.Doc.Clone()
+	x, y := edited.Get("x"), edited.Get("y")
+	edited.Del("x")
+	edited.Del("y")
+	if x != nil {
+		edited.Set("y", x)
+	}
+	if y != nil {
+		edited.Set("x", y)
+	}
+	if l := edited.Get("list"); l != nil && l.K == gen.DArr {
+		for i, j := 0, len(l.Kids)-1; i < j; i, j = i+1, j-1 {
+			l.Kids[i], l.Kids[j] = l.Kids[j], l.Kids[i]
+		}
+	}
+	live := cc.Document()
+	if _, err := lib.again(live); err != nil && DescribeErr(err).Type != "ErrorMemberNotExist" {
+		return fmt.Sprintf("%q failed with %v", text, err)
+	}
+	if !transplantInPlace(live, edited.Build(cc.UseNumber)) {
+		return ""
+	}
+	st.Class("edited-in-place-and-evaluated-again")
+	got, err := lib.again(live)
+	st.Eval(2)
+	res := spec.Eval(ast, edited.Build(cc.UseNumber), gen.PureFuncs{})
+	if res.Unspecified {
+		return ""
+	}
+	want := res.Values()
+	if err != nil && DescribeErr(err).Type != "ErrorMemberNotExist" {
+		return fmt.Sprintf("%q failed with %v after the document was edited in place", text, err)
+	}
+	if !(len(want) == 0 && len(got) == 0) && !reflect.DeepEqual(got, want) {
+		return fmt.Sprintf("%q (UseNumber=%v) after the caller swapped $.x and $.y in place (document now %s): selected %s, SPEC selects %s", text, cc.UseNumber, edited.JSON(), JSONString(got), JSONString(want))
 	}
 	return ""
 }
